@@ -123,7 +123,7 @@ func init() {
 			return fs, ev, inc
 		}})
 	reg(&sim.SimCheck{Prop: "C12", Workload: "c12", Profile: func(th bool) *sim.Profile {
-		p := advProfile(merge(noBare, map[string]int{"garbage": 30, "hugeView": 20, "mutate": 50, "vcGames": 10, "crossInstance": 6, "support": 10, "badBlock": 6, "corruptNested": 25}), 350, 2)(th)
+		p := advProfile(merge(noBare, map[string]int{"garbage": 30, "hugeView": 20, "mutate": 50, "vcGames": 10, "crossInstance": 6, "support": 10, "badBlock": 6, "corruptNested": 25, "wrapLen": 12}), 350, 2)(th)
 		p.Tail, p.TailQuiet, p.TailProp, p.NoRejects = true, true, "C12", true
 		p.LenientValidators = true
 		return p
@@ -134,12 +134,15 @@ func init() {
 		},
 		Rule:   "sim: hostile prefix (random / truncated / bit-flipped / length-corrupted bytes, extreme views and heights, empty ids and proofs, missing blocks, field mutations, replays) delivered at PRNG-chosen points to real worker loops; a panic escaping the worker, or recovered by it while handling a message the reference decoder reads completely, is a violation; then a quiet stabilised tail in which the attacked nodes must commit (bounded progress). rt: the same kinds of input through HandleConsensusMessage / ValidateBlockConsensus / GetMemberIdsFromBlockProof of a running node (race detector on): no panic reaches the supervising loops, the victim keeps committing. non-trivial (sim) = more than 5 hostile inputs and a judged tail",
 		Floors: map[string]int{"adv garbage": 5000, "adv hugeView": 3000, "adv mutate": 10000, "C05 tails judged": 1500, "C05 tails with commit": 1500},
-		Judged: []string{"adv garbage", "adv hugeView", "adv mutate", "delivered adversarial", "C05 tails judged", "C05 tails with commit", "C12 malformed messages dropped after a parser panic"},
+		Judged: []string{"adv garbage", "adv hugeView", "adv mutate", "adv wrapLen", "delivered adversarial", "C05 tails judged", "C05 tails with commit", "C12 malformed messages dropped after a parser panic", "C12 storage probes after a recovered panic"},
 		Extra: func(run *harness.Run) ([]harness.Finding, map[string]interface{}, []string) {
 			fs, ev, inc := rtPart(run, "hostile", 32, 1200, map[string]int{"C12 hostile inputs": 2000, "C12 victims judged for progress": 16})
 			fs2, ev2, inc2 := rtPart(run, "flood", 4, 60, map[string]int{"C12 floods judged": 4})
 			ev["rt_flood"] = ev2
-			return append(fs, fs2...), ev, append(inc, inc2...)
+			// node syncs with the extreme height 2^64-1 through the public API, then a sync that must still take effect
+			fs3, ev3, inc3 := rtPart(run, "commitsync", 32, 1200, map[string]int{"C12 syncs judged after an extreme-height sync": 12})
+			ev["rt_commitsync"] = ev3
+			return append(append(fs, fs2...), fs3...), ev, append(append(inc, inc2...), inc3...)
 		}})
 	reg(&sim.SimCheck{Prop: "C13", Workload: "c13", Profile: func(th bool) *sim.Profile {
 		p := advProfile(merge(noBare, map[string]int{"support": 20, "mutate": 15}), 500, 3)(th)
@@ -158,7 +161,10 @@ func init() {
 			for k, v := range ev2 {
 				ev[k] = v
 			}
-			return append(fs, fs2...), ev, append(inc, inc2...)
+			// scripted commits with a parked commit callback and node syncs in that window: callback heights strictly increasing
+			fs3, ev3, inc3 := rtPart(run, "commitsync", 32, 1200, map[string]int{"C13 commit callbacks judged": 100, "C13 round callbacks judged": 150})
+			ev["rt_commitsync"] = ev3
+			return append(append(fs, fs2...), fs3...), ev, append(append(inc, inc2...), inc3...)
 		}})
 	reg(&sim.SimCheck{Prop: "C17", Workload: "c17", Profile: func(th bool) *sim.Profile {
 		p := advProfile(merge(noBare, map[string]int{"support": 25, "crossInstance": 12, "mutate": 15, "corruptNested": 4}), 600, 3)(th)
